@@ -165,16 +165,21 @@ def work(task):
                 special = True
             else:
                 ta, pm = c13_nonzero(rng, b), c13_nonzero(rng, b)
+                zero_term = rng.random() < 0.1
+                if zero_term:
+                    ta = "0:0"
                 q = cl.safe_amounts(rng, b, pent, qu, 1, ["short_dec", "small_int", "safe_random"])
                 t = cl.safe_amounts(rng, b, tent, tqu, 1, ["short_dec", "small_int", "safe_random"])
                 if not q or not t:
                     continue
                 q, t = q[0][0], t[0][0]
                 special = False
-                if not rate_in_box(b, ta, pm, q, t, tent, pent, tu, pu, qu, tqu):
+                if not zero_term and not rate_in_box(b, ta, pm, q, t, tent, pent, tu, pu, qu, tqu):
+                    continue
+                if zero_term and not rate_in_box(b, "1:0", pm, q, "0:0", tent, pent, tu, pu, qu, tqu):
                     continue
             base = {"tq": tq, "pq": pq, "ta": ta, "tu": tu, "pm": pm, "pu": pu}
-            cases.append({"group": "rate", "tq": tq, "pq": pq, "special": special,
+            cases.append({"group": "rate", "tq": tq, "pq": pq, "special": special, "zero_term": b == "dec" and ta == "0:0",
                           "reqs": [dict(base, op="rate", **hostile_spec(rng)), dict(base, op="apply", q=q, qu=qu, t=t, tqu=tqu)]})
     else:
         ty, ent = task["ty"], task["entry"]
@@ -242,6 +247,9 @@ def judge(part, case, resps, ctx):
         ps = find_panics(r)
         if req.get("_nodiv"):
             ps = [p for p in ps if not (p[0].endswith("/div") or p[0].endswith("/n_div"))]
+        if case.get("zero_term"):
+            # a zero term amount is a zero divisor for value / rate, reciprocal * value and the round trip
+            ps = [p for p in ps if not p[0].startswith(("/tdr", "/rect", "/back"))]
         # the amount type's own reference computations are not library operations
         ps = [p for p in ps if "/n_" not in p[0] and not p[0].startswith("/nat")]
         if not ps:
